@@ -47,4 +47,13 @@ def cases(tier, seed=0):
                             out.append(make_case(PROP, "bayes", kind, Dx, Dy, Rc, Rx, semi=semi, timeout=1800))
                     if Rc * Rx <= 2:
                         out.append(make_case(PROP, "roundtrip", kind, Dx, Dy, Rc, Rx, semi=("Sx", "Sy"), timeout=1800, extra="t"))
+    # constructor / history variants: built from the precision only; update_Sigma before the operation
+    for kind in KINDS:
+        dd = (2, 2) if kind.startswith("identity") else (2, 1)
+        for var in (("viaL",), ("upd",)):
+            if kind == "nncontrol" and var == ("viaL",):
+                continue
+            sm = var + ((("Sx",) if dd == (2, 2) else ()))
+            out.append(make_case(PROP, "bayes", kind, dd[0], dd[1], 1, 1, semi=sm, timeout=600))
+            out.append(make_case(PROP, "bayes", kind, 1, 1, 1 if kind == "nncontrol" else 2, 1, semi=var, timeout=600))
     return out
